@@ -319,7 +319,7 @@ def run(rep):
         fs = [f for f in src.find_fns(name="identifier", file=file) if (f.trait or "").startswith("RelationToQueryTranslator")]
         if fs:
             lets = {}
-            for st in fs[0].body["stmts"]:
+            for st in find(fs[0].body, "let"):  # anywhere in the method (also inside the closure that maps the components)
                 if st["k"] == "let" and st["pat"]["k"] in ("ident", "typed") and st.get("init") is not None and st["init"]["k"] == "lit" and st["init"]["t"] == "char":
                     nm = st["pat"]["name"] if st["pat"]["k"] == "ident" else st["pat"]["pat"]["name"]
                     lets[nm] = st["init"]["v"]
